@@ -7,7 +7,25 @@ extern void vh_tr(int in, bool invoke, const char* name, const void* ptr, void* 
 #define RLBOX_TRANSITION_ACTION_IN(kind, name, ptr, state) ::vh_tr(1, (kind) == ::rlbox::rlbox_transition::INVOKE, name, ptr, state)
 #define RLBOX_TRANSITION_ACTION_OUT(kind, name, ptr, state) ::vh_tr(0, (kind) == ::rlbox::rlbox_transition::INVOKE, name, ptr, state)
 #define RLBOX_MEASURE_TRANSITION_TIMES
-#ifdef CALLS_NOOP
+#if defined(CALLS_DYLIB)
+// the bundled dylib backend: the guest functions live in a shared object (harness/guest_calls.cpp) that the backend
+// dlopens; host ABI, real per-slot trampolines; CALLS_EMBEDDER_TLS as for the no-op backend
+#  define CALLS_NOOP
+#  ifdef CALLS_EMBEDDER_TLS
+#    define RLBOX_EMBEDDER_PROVIDES_TLS_STATIC_VARIABLES
+#  endif
+#  define RLBOX_USE_EXCEPTIONS
+#  define RLBOX_SINGLE_THREADED_INVOCATIONS
+#  define RLBOX_USE_DYNAMIC_CALLS() rlbox_dylib_sandbox_lookup_symbol
+#  include "rlbox_dylib_sandbox.hpp"
+#  include "rlbox.hpp"
+#  include "common.hpp"
+#  ifdef CALLS_EMBEDDER_TLS
+RLBOX_DYLIB_SANDBOX_STATIC_VARIABLES();
+#  endif
+using SbxA = rlbox::rlbox_dylib_sandbox;
+using GLong = long;
+#elif defined(CALLS_NOOP)
 // the bundled no-op backend (host ABI, real per-slot trampolines); CALLS_EMBEDDER_TLS selects the
 // embedder-provided thread-local-storage configuration
 #  ifdef CALLS_EMBEDDER_TLS
@@ -90,6 +108,16 @@ static GLong gl_node(GLong arg)
 static long g_vret;
 static void gv_node(GLong arg) { g_vret = (long)gl_node(arg); }
 
+// the callable address of a guest function: in the shared object for the dylib backend, in the harness otherwise
+static void* guest_fn(int sb, const char* name, void* local)
+{
+#ifdef CALLS_DYLIB
+  (void)local; return g_sb[sb].lookup_symbol(name);
+#else
+  (void)sb; (void)name; return local;
+#endif
+}
+
 static void run_invokes()
 {
   while (peek() == "I") {
@@ -103,10 +131,10 @@ static void run_invokes()
     int saved = g_cur_sb; g_cur_sb = sb;
     struct Restore { int& r; int v; ~Restore() { r = v; } } restore{ g_cur_sb, saved };
     if (as_void) {
-      g_sb[sb].INTERNAL_invoke_with_func_ptr<void(long)>("gl_node", reinterpret_cast<void*>(&gv_node), arg);
+      g_sb[sb].INTERNAL_invoke_with_func_ptr<void(long)>("gl_node", guest_fn(sb, "gv_node", reinterpret_cast<void*>(&gv_node)), arg);
       logev("r" + std::to_string(g_vret));
     } else {
-      auto r = g_sb[sb].INTERNAL_invoke_with_func_ptr<long(long)>("gl_node", reinterpret_cast<void*>(&gl_node), arg);
+      auto r = g_sb[sb].INTERNAL_invoke_with_func_ptr<long(long)>("gl_node", guest_fn(sb, "gl_node", reinterpret_cast<void*>(&gl_node)), arg);
       logev("r" + std::to_string(r.UNSAFE_unverified()));
     }
   }
@@ -129,7 +157,18 @@ template<int K> static tainted<long, SbxA> cbK(Sb& s, tainted<long, SbxA> a)
 int main()
 {
   g_cbs[0] = &cbK<0>; g_cbs[1] = &cbK<1>; g_cbs[2] = &cbK<2>; g_cbs[3] = &cbK<3>;
+#ifdef CALLS_DYLIB
+  const char* so = getenv("VH_GUEST_SO");
+  if (!so) { fprintf(stderr, "VH_GUEST_SO not set\n"); return 2; }
+  g_sb[0].create_sandbox(so); g_sb[1].create_sandbox(so);
+  {
+    using SetFn = void (*)(long (*)(long), void (*)(long));
+    auto set = reinterpret_cast<SetFn>(g_sb[0].lookup_symbol("vh_set_hooks"));
+    set(+[](long a) -> long { return (long)gl_node((GLong)a); }, +[](long a) { gv_node((GLong)a); });
+  }
+#else
   g_sb[0].create_sandbox(); g_sb[1].create_sandbox();
+#endif
   g_sb[0].set_transition_state(&g_state[0][0]); g_sb[1].set_transition_state(&g_state[1][0]);
   main_loop([&](const std::vector<std::string>& t) -> std::string {
     if (t[0] != "tree" && t[0] != "treen") return "badop";
